@@ -159,6 +159,20 @@ def enum_exprs(size_limit, consts):
         by_size[s] = cur
     return by_size
 
+def two_op_family(consts):
+    """all expressions ((n op1 a) op2 b), (a op1 (n op2 b)), ((a op1 n) op2 b), (b op2 (n op1 a)) over binary/comparison operators"""
+    ops = [('bin', o) for o in BIN] + [('cmp', o) for o in CMP]
+    n = ('name',)
+    for k1, o1 in ops:
+        for k2, o2 in ops:
+            for a in consts:
+                for b in consts:
+                    A, B = ('num', a), ('num', b)
+                    yield (k2, o2, (k1, o1, n, A), B)
+                    yield (k2, o2, (k1, o1, A, n), B)
+                    yield (k2, o2, B, (k1, o1, n, A))
+                    yield (k1, o1, A, (k2, o2, n, B))
+
 REGISTRY_STYLE = [
     'n != 1', 'n > 1', '0',
     'n%10==1 && n%100!=11 ? 0 : n%10>=2 && n%10<=4 && (n%100<10 || n%100>=20) ? 1 : 2',
